@@ -261,7 +261,15 @@ class PyExec:
         st = State()
         args, assumptions = contract.setup(self)
         st.pc.extend(assumptions)
-        for a in list(fn.args.args) + list(fn.args.kwonlyargs):
+        seg = getattr(contract, 'segment', None)
+        body = fn.body
+        if seg is not None:
+            # "segment contract": a statement list selected mechanically from the real AST of the function (e.g. one
+            # branch of an if); every name it reads is given by the contract, the rest of the function is not executed
+            body = seg(fn)
+            if not body:
+                raise PyNotSupported("segment of %s not found in the current source" % qual)
+        for a in ([] if seg is not None else list(fn.args.args) + list(fn.args.kwonlyargs)):
             if a.arg not in args:
                 raise PyNotSupported("contract of %s gives no value for parameter %s" % (qual, a.arg))
             st.env[a.arg] = args[a.arg]
@@ -270,7 +278,7 @@ class PyExec:
         self.cur = qual
         if hasattr(contract, 'init_state'):
             contract.init_state(st)
-        outs = self.exec_block(fn.body, st)
+        outs = self.exec_block(body, st)
         res = []
         for o in outs:
             if o.kind == 'next':
@@ -971,6 +979,15 @@ class PyExec:
                         if len(r) != 1 or isinstance(r[0][1], Exc):
                             raise PyNotSupported("slice bound")
                         vals.append(r[0][1])
+                if n.slice.step is not None:
+                    r = list(self.ev(n.slice.step, s))
+                    if len(r) != 1 or is_sym(r[0][1]) or isinstance(r[0][1], Exc):
+                        raise PyNotSupported("slice step")
+                    if not is_sym(o) and not isinstance(o, PObj) and not is_sym(vals[0]) and not is_sym(vals[1]):
+                        yield s, o[vals[0]:vals[1]:r[0][1]]
+                    else:       # an opaque value determined by (sequence, bounds, step)
+                        yield s, PObj('SteppedSlice', base=o, lo=vals[0], hi=vals[1], step=r[0][1])
+                    continue
                 yield s, self.slice(o, vals[0], vals[1], n)
                 continue
             for s2, k in self.ev(n.slice, s):
@@ -1245,7 +1262,8 @@ class PyExec:
         raise PyNotSupported("method %s on %s (line %d)" % (name, t, n.lineno))
 
     def str_method(self, o, name, pos, st, n):
-        if not is_sym(o) and not any(is_sym(p) for p in pos):
+        deep_sym = any(isinstance(p, (list, tuple)) and any(is_sym(x) or isinstance(x, PObj) for x in p) for p in pos)
+        if not is_sym(o) and not any(is_sym(p) for p in pos) and not deep_sym:
             try:
                 yield st, getattr(o, name)(*pos)
             except ValueError:
